@@ -2,7 +2,7 @@
 from fractions import Fraction as Fr
 import algebra as A
 from algebra import El, ZERO, ONE
-from core import (Harness, sv, ss, Run, Conv, run_specs, report_dropped, ret_leaves, cmp_struct, single_ret, forms4, forms2, flat, check_fold, check_value, parse_guard)
+from core import (Harness, sv, ss, Run, Conv, run_specs, report_dropped, ret_leaves, cmp_struct, single_ret, forms4, forms2, flat, check_fold, check_accumulate, check_value, parse_guard)
 import facts
 import specs
 import angledom as D
@@ -169,7 +169,7 @@ def check_range(run, S, name, spec, kw):
 
 def check_sum(run, S, name, spec, kw):
     acc, item = El.v('acc.0'), El.v('item.0')
-    check_fold(run, S, name, [ZERO], lambda res: A.eq(res[0], acc + item))
+    check_accumulate(run, S, name, [ZERO], lambda a, i: [a[0] + i[0]], lambda res: A.eq(res[0], acc + item))
 
 
 def run(tier):
